@@ -273,4 +273,6 @@ def neighbourhood(decls, with_heap=False):
         out += [("tuple", [L]), ("array", L, 2), ("array", ("tuple", [L]), 2), ("tuple", [L, L]), S([L])]
         if with_heap:
             out += [("vec", L), ("vec", ("tuple", [L]))]
+        # array followed by further fields inside an aggregate that is not trivially decodable
+        out += [("tuple", [("array", L, 2), ("u16",)]), S([("bool",), ("array", L, 3), ("u32",)])]
     return out
